@@ -147,6 +147,18 @@ func c20Cases(seed int64, tier string) []c20Case {
 			}
 		}
 	}
+	// a few keys with entries that are large compared with a table
+	for ri, r := range []int{1, 2} {
+		for ci, comp := range []string{"hook", "worker"} {
+			id++
+			c := c20Case{ID: id, Keys: 12, Val: "big", TS: 4096, R: r, WL: "overwrite", Comp: comp, Evict: "hook", Writers: 2, Seed: seed,
+				Members: 2, Parts: 3, Idle: []string{"0", "30ms"}[(ri+ci)%2], L: 240}
+			if tier != "quick" {
+				c.L = 1200
+			}
+			cs = append(cs, c)
+		}
+	}
 	return cs
 }
 
@@ -242,6 +254,11 @@ func (w *c20World) inconclusive(why string) {
 func (w *c20World) valueLen(i, round int) int {
 	if w.cs.Val == "fixed" {
 		return 100
+	}
+	if w.cs.Val == "big" {
+		// entries of 28% and 75% of a table, alternating per key and round: a table is often retired long before it
+		// is full, because the next entry does not fit
+		return []int{int(w.cs.TS) * 28 / 100, int(w.cs.TS) * 75 / 100}[(i+round)%2]
 	}
 	// cyclic rotation: the multiset of sizes is the same in every round, the period (8) divides L/12·k
 	sizes := []int{10, 40, 90, 150, 240, 330, 450, 600}
@@ -691,10 +708,16 @@ func (w *c20World) compactHook(sampleRound int) bool {
 	return allDone
 }
 
+// c20AboveThreshold: the garbage ratio of a table that is not written to anymore is the share of garbage in what has
+// been written to it (the rest of its memory is never filled); compaction goes on while that share is >= 40%.
+func c20AboveThreshold(t table.VerifInfo) bool {
+	return t.Garbage > 0 && float64(t.Garbage) >= float64(t.Inuse+t.Garbage)*c20Ratio
+}
+
 // complete reports whether a fragment is in the state compaction converges to.
 func (w *c20World) complete(tabs []table.VerifInfo, idleSeen bool) bool {
 	for _, t := range tabs {
-		if t.State == table.ReadOnlyState && float64(t.Garbage) >= float64(t.Allocated)*c20Ratio {
+		if t.State == table.ReadOnlyState && c20AboveThreshold(t) {
 			return false
 		}
 		if idleSeen && t.State == table.RecycledState && len(tabs) > 1 {
@@ -891,8 +914,8 @@ func (w *c20World) sample(round int, slot string, secondHalf bool) {
 			case table.ReadWriteState:
 				headSeen = true
 			case table.ReadOnlyState:
-				if settled && float64(t.Garbage) >= float64(t.Allocated)*c20Ratio {
-					w.violate("garbage-left", f.Side, fmt.Sprintf("round %d fragment %s: after compaction completed, read-only table %d still has garbage %d of %d (>= 40%%)", round, f, ti, t.Garbage, t.Allocated), ev())
+				if settled && c20AboveThreshold(t) {
+					w.violate("garbage-left", f.Side, fmt.Sprintf("round %d fragment %s: after compaction completed, read-only table %d still has garbage %d of %d written bytes (>= 40%%)", round, f, ti, t.Garbage, t.Inuse+t.Garbage), ev())
 				}
 			case table.RecycledState:
 				w.tablesRecycledSeen++
@@ -982,7 +1005,11 @@ func (w *c20World) sample(round int, slot string, secondHalf bool) {
 			liveForBound = st.Inuse // do not cascade: leftovers were reported above
 		}
 		if cs.Idle != "default" && settled {
-			bound := int(c20Factor*float64(liveForBound)) + c20SlackTables*int(cs.TS)
+			slack := c20SlackTables
+			if cs.Val == "big" {
+				slack += cs.Keys // an entry of a quarter of a table can keep a whole table alive
+			}
+			bound := int(c20Factor*float64(liveForBound)) + slack*int(cs.TS)
 			w.ctx.rep.Count("bound_checks", 1)
 			if st.Allocated > bound {
 				w.violate("over-bound", f.Side, fmt.Sprintf("round %d (%s) fragment %s: allocated %d (%d tables) > 2.5 x live %d + 3 tables = %d", round, w.roundType(round), f, st.Allocated, st.NumTables, liveForBound, bound), ev())
@@ -1179,6 +1206,10 @@ func c20RunCase(ctx *runCtx, cs c20Case) (violations int, why string) {
 func c20Child(ctx *runCtx, spec string) {
 	// spec: comma separated case ids; "q<id>" takes the case from the quick list (shorter L);
 	// "raceparse:<prefix>" only classifies existing race detector logs (self-test of the classifier)
+	if strings.HasPrefix(spec, "worker ") {
+		c20WorkerChild(ctx, spec)
+		return
+	}
 	if strings.HasPrefix(spec, "raceparse:") {
 		c20RaceReports(ctx, strings.TrimPrefix(spec, "raceparse:"))
 		return
@@ -1288,6 +1319,13 @@ func c20Run(ctx *runCtx) int {
 	if ctx.tier == "thorough" {
 		parallel = 5
 	}
+	wc := 12
+	if ctx.tier == "thorough" {
+		wc = 60
+	}
+	batches = append(batches,
+		batch{Spec: fmt.Sprintf("worker N=1 R=1 cycles=%d seed=%d", wc, ctx.seed*10+1), Timeout: 10 * time.Minute},
+		batch{Spec: fmt.Sprintf("worker N=2 R=2 cycles=%d seed=%d", wc, ctx.seed*10+2), Timeout: 10 * time.Minute})
 	runBatches(ctx, batches, parallel, onDeath)
 	ctx.rep.Extra("cases_planned", len(cases))
 	min := 500
